@@ -181,6 +181,44 @@ func (w *world) bigItem(st stepShape, sc *scenario, idx int, f *certFn, size int
 	return it
 }
 
+// sharedShortItem: ONE link file <step>.<short>.link whose signature list has several entries whose key ids all start
+// with <short>: the honest functionary's entry (valid) at position pos, the others foreign — a junk signature under
+// <short>+other hex, or a valid signature of an outsider relabelled to such an id. The loader keys the link by the
+// FIRST entry extending the short id, so the link counts iff the honest entry comes first.
+func (w *world) sharedShortItem(st stepShape, sc *scenario, idx int, f *certFn, n, pos int, r *lib.Rng) *item {
+	var hk intoto.Key
+	authorised := false
+	if f != nil {
+		hk, authorised = f.leaf.Key, w.certAuthorised(f, st, sc)
+	} else {
+		hk, authorised = w.pool[idx].Priv, keyAuthorised(idx, st, sc)
+	}
+	mb := signedMB(st.name, hk)
+	honest := mb.Signatures[0]
+	sh := short(hk.KeyID)
+	var sigs []intoto.Signature
+	for j := 0; j < n; j++ {
+		if j == pos {
+			sigs = append(sigs, honest)
+			continue
+		}
+		alias := sh + r.Str("0123456789abcdef", 56, 56)
+		if (j+pos)%2 == 0 {
+			sigs = append(sigs, intoto.Signature{KeyID: alias, Sig: "00ff" + r.Str("0123456789abcdef", 60, 60)})
+		} else {
+			o := w.outsiders[j%len(w.outsiders)]
+			om := signedMB(st.name, o.Priv)
+			sigs = append(sigs, intoto.Signature{KeyID: alias, Sig: om.Signatures[0].Sig})
+		}
+	}
+	mb.Signatures = sigs
+	it := &item{name: linkName(st.name, hk.KeyID), content: dumpMB(mb), label: fmt.Sprintf("sigs-sharing-short-id-honest-%d-of-%d", pos+1, n)}
+	if authorised && pos == 0 {
+		it.honest = hk.KeyID
+	}
+	return it
+}
+
 // borrowedItem: a link signed by an outsider whose signature entry's cert field holds an authorised functionary's
 // CERTIFICATE together with the outsider's own KEY block (variant bit 0: key block first; bit 1: private instead of public key block)
 func (w *world) borrowedItem(st stepShape, f *certFn, o lib.KeyPair, variant int) *item {
@@ -720,6 +758,14 @@ func makers() []maker {
 			}
 			return w.aliasItem(st, f, [][]string{{"sha256"}, {"sha512"}, {"sha512", "sha256"}}[r.Intn(3)])
 		}},
+		// several signature entries of one file extend the file's short id: the first one decides
+		{"sigs-sharing-short-id", func(w *world, sc *scenario, st stepShape, r *lib.Rng) *item {
+			n := 2 + r.Intn(2)
+			if i := pickKey(st, sc, r, true, w); i >= 0 && r.Chance(2, 3) {
+				return w.sharedShortItem(st, sc, i, nil, n, r.Intn(n), r)
+			}
+			return w.sharedShortItem(st, sc, 0, w.leaves[honestCerts[r.Intn(len(honestCerts))]], n, r.Intn(n), r)
+		}},
 		// an outsider borrows an authorised functionary's certificate: cert field = that certificate + the outsider's key block
 		{"borrowed-cert-plus-own-key-block", func(w *world, sc *scenario, st stepShape, r *lib.Rng) *item {
 			f := w.leaves[honestCerts[r.Intn(len(honestCerts))]]
@@ -1119,6 +1165,26 @@ func witnessScenarios(w *world, r *lib.Rng) []*scenario {
 			sc.addItem(st, w.bigItem(st, sc, 0, w.leaves["carol"], 17<<20+12345))
 		}
 		out = append(out, sc)
+	}
+	// one file, 2-3 signature entries sharing the file's short id, the honest entry first / middle / last:
+	// the first matching entry decides under which id the link is loaded
+	for n := 2; n <= 3; n++ {
+		for pos := 0; pos < n; pos++ {
+			for route := 0; route < 2; route++ {
+				sc := &scenario{klass: "sigs-sharing-short-id", defined: map[int]bool{4: true, 6: true}, items: map[string][]item{}, roots: "root", interIn: "layout"}
+				st := stepShape{name: "build", threshold: 1 + (n+pos)%2, pubkeys: []int{4, 6}, ccs: []intoto.CertificateConstraint{ccAll()}}
+				sc.steps = []stepShape{st}
+				if route == 0 {
+					sc.addItem(st, w.sharedShortItem(st, sc, 4, nil, n, pos, r))
+				} else {
+					sc.addItem(st, w.sharedShortItem(st, sc, 0, w.leaves[honestCerts[(n+pos)%len(honestCerts)]], n, pos, r))
+				}
+				if st.threshold == 2 {
+					sc.addItem(st, w.keyItem(st, sc, 6, "key-authorised"))
+				}
+				out = append(out, sc)
+			}
+		}
 	}
 	// an outsider's link carrying an authorised functionary's certificate plus the outsider's own key block
 	for v := 0; v < 8; v++ {
